@@ -1412,13 +1412,45 @@ fn format_hanging_expression_(
         Expression::UnaryOperator { unop, expression } => {
             let unop = format_unop(ctx, unop, shape);
             let shape = shape + strip_leading_trivia(&unop).to_string().len();
-            let expression = format_hanging_expression_(
+            let mut expression = format_hanging_expression_(
                 ctx,
                 expression,
                 shape,
                 ExpressionContext::UnaryOrBinary,
                 lhs_range,
             );
+
+            // Special case: `- -foo` / `-(-foo)` must keep its parentheses, otherwise we print `--foo` (a comment).
+            // Same handling as in `format_expression_internal`
+            if let UnOp::Minus(_) = unop {
+                let require_parentheses = match expression {
+                    Expression::UnaryOperator {
+                        unop: UnOp::Minus(_),
+                        ..
+                    } => true,
+                    Expression::Parentheses { ref expression, .. } => matches!(
+                        &**expression,
+                        Expression::UnaryOperator {
+                            unop: UnOp::Minus(_),
+                            ..
+                        }
+                    ),
+                    _ => false,
+                };
+
+                if require_parentheses {
+                    let (new_expression, trailing_comments) =
+                        trivia_util::take_trailing_comments(&expression);
+                    expression = Expression::Parentheses {
+                        contained: ContainedSpan::new(
+                            TokenReference::symbol("(").unwrap(),
+                            TokenReference::symbol(")").unwrap(),
+                        )
+                        .update_trailing_trivia(FormatTriviaType::Append(trailing_comments)),
+                        expression: Box::new(new_expression),
+                    }
+                }
+            }
 
             Expression::UnaryOperator {
                 unop,
